@@ -114,7 +114,7 @@ CLAIMS = {
              "dominating check (flow-sensitive narrowing on is None / isinstance / get_type()); get_definition's result "
              "signature is checked against its return statements; call sites pass a non-None file. Coordinates: add_error "
              "clamping and _create_ref_link are VCs (mode F). The native sweep (tens of thousands of positional requests, "
-             "quick tier; ~380k thorough) is the bounded stand-in for index errors in string helpers.",
+             "quick tier; ~380k thorough; plus documentSymbol of every document and workspace/symbol queries, every returned range checked) is the bounded stand-in for index errors in string helpers.",
         note="Values of unknown class are not checked (count in the evidence); hints: FortranFile.ast set before a "
              "file enters the workspace, Intrinsic.get_type in {2,3,14,15} (checked exhaustively on the bundled tables). "
              "IndexError/KeyError freedom of the string scanners is only covered by the sweep.",
@@ -139,7 +139,7 @@ CLAIMS = {
              "preprocessor (ISO C 6.10.1) on every well-formed #if/#elif/#else/#endif skeleton up to 7 (thorough 9) "
              "directives with all truth assignments, on seeded random skeletons with #ifdef/#define/#undef and real "
              "conditions for five macro tables, on the index produced by the real parser, and on macro bodies with "
-             "special characters. Structural/finite obligations: `defined` rewriting is parenthesis-neutral, the skip test "
+             "special characters, and on the same skeletons respelled with blanks, tabs and comments inside the directives. Structural/finite obligations: `defined` rewriting is parenthesis-neutral, the skip test "
              "dominates every index-building call in parse.",
         note="Bounded, never counted as proved; redefinition semantics and rescanning order of macro expansion are not "
              "decided; known finding: parameters substituted inside character literals of function-like macro bodies.",
@@ -150,11 +150,11 @@ CLAIMS = {
              "mechanically: find_in_scope / find_in_workspace / climb_type_tree / obj_tree[..] / workspace[..]) is reset or "
              "unconditionally recomputed by a resolver that the save path runs for every live object; serve_onSave bumps the "
              "link version and re-resolves includes and links of the whole workspace; the delete path forgets the file and "
-             "re-resolves; update_workspace_file prunes the previous version's keys before adding the new ones; parsing does "
+             "re-resolves; update_workspace_file prunes the previous version's keys before adding the new ones; the owner of a top-level name declared by several files is the file with the greatest path at start-up and after every save; parsing does "
              "not mutate the server's pp_defs/include_dirs arguments (frame analysis). Histories of sync events compared with "
              "a freshly started server are the bounded stand-in.",
         note="Obligations are structural (shape of each resolver) and frame-analytic, not a proof that recomputed values "
-             "equal a fresh server's: that equality is observed only on the bounded histories (31 histories over a 21-file workspace).",
+             "equal a fresh server's: that equality is observed only on the bounded histories (44 histories with save, unsaved change, ranged edit, create, delete, close and reopen operations over a 28-file workspace).",
         technique="freshness/frame obligations over the AST and call graph (pyvc mode E); native history replay as bounded stand-in",
         design="3/C10"),
     "C04": dict(
